@@ -118,9 +118,18 @@ impl RBig {
     /// This method only make sense for canonicalized ratios.
     #[inline]
     pub fn is_simpler_than(&self, other: &Self) -> bool {
-        (self.denominator() < other.denominator()) // first compare denominator
-            && self.numerator().abs_cmp(other.numerator()).is_le() // then compare numerator
-            && self.sign() > other.sign() // then compare sign
+        match self.denominator().cmp(other.denominator()) {
+            // first compare the denominators
+            Ordering::Less => true,
+            Ordering::Greater => false,
+            Ordering::Equal => match self.numerator().abs_cmp(other.numerator()) {
+                // then compare the magnitudes of the numerators
+                Ordering::Less => true,
+                Ordering::Greater => false,
+                // then a positive number is simpler than a negative one
+                Ordering::Equal => self.sign() > other.sign(),
+            },
+        }
     }
 
     /// Find the simplest rational number in the rounding interval of the [f32] number.
